@@ -16,7 +16,10 @@ package main
 // Create/Update/DeleteById/DeleteWhere run through boltz.Db.Update with ordinary (boltz.NewMutateContext) and system
 // (GetSystemContext) contexts, optionally inside a nested Db.Update.
 //
-// Case line:   H <pool>[/<owner pool>] <tx> <tx> ...
+// Case line:   <kind> <pool>[/<owner pool>] <tx> <tx> ...
+//
+//	kind = H | HC | HB | HN : the system entity constraint is registered on S | on the child store C only (through the
+//	       isSystem symbol S grants) | on both | nowhere
 //
 //	pool = comma separated wire ids; tx = <top><mode>!<op>;<op>;...
 //	  top  = O | S : the context handed to Db.Update is ordinary | system
@@ -131,7 +134,9 @@ type c16Env struct {
 	peers  boltz.LinkCollection
 }
 
-func c16Open() *c16Env {
+// reg: where the system entity constraint is registered: "S" (the parent store), "C" (the child store only, through
+// the isSystem symbol the parent grants), "B" (both), "N" (nowhere)
+func c16Open(reg string) *c16Env {
 	dir, err := os.MkdirTemp("", "verif-*")
 	if err != nil {
 		panic(err)
@@ -142,6 +147,12 @@ func c16Open() *c16Env {
 	}
 	// the file stays usable through bbolt's open descriptor; nothing is left behind
 	_ = os.RemoveAll(dir)
+	// a scratch database: no fsync per commit (commit / rollback semantics are unaffected)
+	_ = db.Update(nil, func(ctx boltz.MutateContext) error {
+		ctx.Tx().DB().NoSync = true
+		ctx.Tx().DB().NoFreelistSync = true
+		return nil
+	})
 
 	owners := boltz.NewBaseStore(boltz.StoreDefinition[*c16Owner]{
 		EntityType:     c16OwnerType,
@@ -202,9 +213,14 @@ func c16Open() *c16Env {
 	foosSym := owners.AddFkSetSymbol("foos", st)
 	peers := st.AddLinkCollection(peersSym, foosSym)
 	owners.AddLinkCollection(foosSym, peersSym)
-	st.AddConstraint(boltz.NewSystemEntityEnforcementConstraint(st))
+	if reg == "S" || reg == "B" {
+		st.AddConstraint(boltz.NewSystemEntityEnforcementConstraint(st))
+	}
 	st.GrantSymbols(kids)
 	kids.AddSymbol("level", ast.NodeTypeString)
+	if reg == "C" || reg == "B" {
+		kids.AddConstraint(boltz.NewSystemEntityEnforcementConstraint(kids))
+	}
 	return &c16Env{db: db, owners: owners, store: st, kids: kids, peers: peers}
 }
 
@@ -228,7 +244,22 @@ func (e *c16Env) wipe() {
 	}
 }
 
-var c16env *c16Env
+var c16envs = map[string]*c16Env{}
+
+// first token of a case line: H (constraint on S), HC (on C only), HB (on both), HN (nowhere)
+func c16Reg(kind string) string {
+	switch kind {
+	case "H":
+		return "S"
+	case "HC":
+		return "C"
+	case "HB":
+		return "B"
+	case "HN":
+		return "N"
+	}
+	panic("bad case kind " + kind)
+}
 
 func c16Err(err error) string {
 	if err == nil {
@@ -536,12 +567,14 @@ func c16Pool(s string) []string {
 }
 
 func c16Exec(line string) string {
-	if c16env == nil {
-		c16env = c16Open()
-	}
-	e := c16env
-	e.wipe()
 	f := fields(line)
+	reg := c16Reg(f[0])
+	e := c16envs[reg]
+	if e == nil {
+		e = c16Open(reg)
+		c16envs[reg] = e
+	}
+	e.wipe()
 	ps, os_, _ := strings.Cut(f[1], "/")
 	pool, opool := c16Pool(ps), c16Pool(os_)
 	var out []string
@@ -594,7 +627,10 @@ var c16CtxKinds = []string{"o", "s", "n", "m"}
 func c16Gen(tier string, seed uint64, out *bufio.Writer) {
 	r := newRng(seed)
 	c16Exhaustive(out)
-	c16Indirect(out)
+	c16Indirect(out, "H")
+	// the same paths with the constraint registered on the child store only / on both stores
+	c16Indirect(out, "HC")
+	c16Indirect(out, "HB")
 	n := 2500
 	if tier == "thorough" {
 		n = 50000
@@ -648,7 +684,12 @@ func c16Exhaustive(out *bufio.Writer) {
 // the indirect paths, exhaustively over small shapes: every way an operation on ANOTHER entity or through ANOTHER
 // store reaches an entity of the constrained store, from every kind of context, followed by direct attempts from an
 // ordinary context (is the entity still protected?) and a read-back
-func c16Indirect(out *bufio.Writer) {
+//
+// kind = where the constraint is registered (H: on S; HC: on the child store only; HB: both).  For HC / HB the entities
+// are created through S (no child data) or through the child store (child data), since that decides which store's
+// constraints an operation through S reaches; the shapes are thinned out (one Migrate value, one owner, two checkers).
+func c16Indirect(out *bufio.Writer, kind string) {
+	full := kind == "H"
 	a, b, c := toWire("a"), toWire("b"), toWire("c")
 	o1, o2 := toWire("o1"), toWire("o2")
 	n0, n1 := toWire("n0"), toWire("n1")
@@ -656,7 +697,11 @@ func c16Indirect(out *bufio.Writer) {
 	flags := []string{"t", "f"}
 	tops := []string{"O", "S"}
 	modes := []string{"a", "k"}
+	via := "c"
 	ent := func(ctx, id, flag, name, owner string) string {
+		if via == "C" {
+			return "C:" + ctx + ":" + id + ":" + flag + ":" + name + ":" + c16Rest("f", "z", "z", "~") + ":" + owner + ":" + l0
+		}
 		return "c:" + ctx + ":" + id + ":" + flag + ":" + name + ":" + c16Rest("f", "z", "z", "~") + ":" + owner
 	}
 	probe := func(id string) string {
@@ -665,27 +710,37 @@ func c16Indirect(out *bufio.Writer) {
 	pools := a + "," + b + "," + c + "/" + o1 + "," + o2
 
 	// (1) cascade: owner o1 with referrers a, b (c refers to o2 or nothing); O.DeleteById(o1) from every context
-	for _, fa := range flags {
-		for _, fb := range flags {
-			for _, fc := range flags {
-				setup := "Sa!oc:o:" + o1 + ";oc:o:" + o2 + ";" + ent("s", a, fa, n0, o1) + ";" + ent("s", b, fb, n1, o1) + ";" + ent("s", c, fc, n0, o2) + ";l:" + a + ":" + o1 + ";l:" + c + ":" + o1
-				for _, top := range tops {
-					for _, mode := range modes {
-						for _, ctx := range c16CtxKinds {
-							fmt.Fprintf(out, "H %s %s %s%s!od:%s:%s;od:%s:%s %s\n", pools, setup, top, mode, ctx, o1, ctx, o2, probe(a))
+	vias := []string{"c"}
+	if !full {
+		vias = []string{"c", "C"}
+	}
+	for _, via = range vias {
+		for _, fa := range flags {
+			for _, fb := range flags {
+				for _, fc := range flags {
+					if !full && fc == "t" {
+						continue
+					}
+					setup := "Sa!oc:o:" + o1 + ";oc:o:" + o2 + ";" + ent("s", a, fa, n0, o1) + ";" + ent("s", b, fb, n1, o1) + ";" + ent("s", c, fc, n0, o2) + ";l:" + a + ":" + o1 + ";l:" + c + ":" + o1
+					for _, top := range tops {
+						for _, mode := range modes {
+							for _, ctx := range c16CtxKinds {
+								fmt.Fprintf(out, "%s %s %s %s%s!od:%s:%s;od:%s:%s %s\n", kind, pools, setup, top, mode, ctx, o1, ctx, o2, probe(a))
+							}
 						}
 					}
-				}
-				// the cascade in the same transaction as other work, and deletes by query
-				for _, ctx := range c16CtxKinds {
-					for _, q := range []string{"T", "n:" + n0, "n:" + n1, "o:" + o1, "o:" + o2, "s:t", "s:f"} {
-						fmt.Fprintf(out, "H %s %s Oa!w:%s:%s %s\n", pools, setup, ctx, q, probe(c))
-						fmt.Fprintf(out, "H %s %s Ok!d:o:%s;w:%s:%s;r:%s Oa!r:%s\n", pools, setup, a, ctx, q, b, a)
+					// the cascade in the same transaction as other work, and deletes by query
+					for _, ctx := range c16CtxKinds {
+						for _, q := range []string{"T", "n:" + n0, "n:" + n1, "o:" + o1, "o:" + o2, "s:t", "s:f"} {
+							fmt.Fprintf(out, "%s %s %s Oa!w:%s:%s %s\n", kind, pools, setup, ctx, q, probe(c))
+							fmt.Fprintf(out, "%s %s %s Ok!d:o:%s;w:%s:%s;r:%s Oa!r:%s\n", kind, pools, setup, a, ctx, q, b, a)
+						}
 					}
 				}
 			}
 		}
 	}
+	via = "c"
 
 	// (2) the child store: parent created (or not) with / without the flag, then Create / Update / DeleteById
 	// through the child store from every context
@@ -705,12 +760,26 @@ func c16Indirect(out *bufio.Writer) {
 			var seconds []string
 			for _, ctx := range c16CtxKinds {
 				seconds = append(seconds, "D:"+ctx+":"+a)
+				// through S: with child data the update is handed to the child store, the delete walks its constraints
+				seconds = append(seconds, "d:"+ctx+":"+a)
+				for _, ch := range []string{"n", "name", "level,isSystem"} {
+					seconds = append(seconds, "u:"+ctx+":"+a+":f:"+n1+":"+ch+":"+c16Rest("f", "3000", "z", "t1")+":"+o1)
+				}
 				for _, fl := range flags {
 					for _, mig := range flags {
+						if !full && mig == "t" {
+							continue
+						}
 						for _, own := range []string{"-", o1, o2} {
+							if !full && own != o1 {
+								continue
+							}
 							seconds = append(seconds, "C:"+ctx+":"+a+":"+fl+":"+n1+":"+c16Rest(mig, "3000", "3000", "t1")+":"+own+":"+l1)
 						}
 						for _, ch := range []string{"n", "level", "name,isSystem,level", "-"} {
+							if !full && ch != "n" && ch != "level" {
+								continue
+							}
 							seconds = append(seconds, "U:"+ctx+":"+a+":"+fl+":"+n1+":"+ch+":"+c16Rest(mig, "3000", "z", "t1")+":"+o1+":"+l1)
 						}
 					}
@@ -719,7 +788,7 @@ func c16Indirect(out *bufio.Writer) {
 			for _, snd := range seconds {
 				for _, top := range tops {
 					for _, mode := range modes {
-						fmt.Fprintf(out, "H %s %s %s%s!%s %s\n", pool1, setup, top, mode, snd, probe(a))
+						fmt.Fprintf(out, "%s %s %s %s%s!%s %s\n", kind, pool1, setup, top, mode, snd, probe(a))
 					}
 				}
 			}
@@ -731,8 +800,8 @@ func c16Indirect(out *bufio.Writer) {
 		setup := "Sa!oc:o:" + o1 + ";" + ent("s", a, fa, n0, "-")
 		for _, top := range tops {
 			for _, mode := range modes {
-				fmt.Fprintf(out, "H %s %s %s%s!l:%s:%s;l:%s:%s;x:%s:%s;l:%s:%s %s%s!od:o:%s %s\n", pool1, setup, top, mode, a, o1, a, o2, b, o1, a, o1, top, mode, o1, probe(a))
-				fmt.Fprintf(out, "H %s %s %s%s!l:%s:%s;x:%s:%s;x:%s:%s;d:o:%s %s\n", pool1, setup, top, mode, a, o1, a, o1, a, o2, a, probe(a))
+				fmt.Fprintf(out, "%s %s %s %s%s!l:%s:%s;l:%s:%s;x:%s:%s;l:%s:%s %s%s!od:o:%s %s\n", kind, pool1, setup, top, mode, a, o1, a, o2, b, o1, a, o1, top, mode, o1, probe(a))
+				fmt.Fprintf(out, "%s %s %s %s%s!l:%s:%s;x:%s:%s;x:%s:%s;d:o:%s %s\n", kind, pool1, setup, top, mode, a, o1, a, o1, a, o2, a, probe(a))
 			}
 		}
 	}
@@ -864,5 +933,14 @@ func c16History(r *rng, out *bufio.Writer) {
 		}
 		txs = append(txs, top+mode+"!"+strings.Join(ops, ";"))
 	}
-	fmt.Fprintf(out, "H %s/%s %s\n", strings.Join(wp, ","), strings.Join(wo, ","), strings.Join(txs, " "))
+	kind := "H"
+	switch w := r.intn(20); {
+	case w < 6:
+		kind = "HC"
+	case w < 11:
+		kind = "HB"
+	case w < 12:
+		kind = "HN"
+	}
+	fmt.Fprintf(out, "%s %s/%s %s\n", kind, strings.Join(wp, ","), strings.Join(wo, ","), strings.Join(txs, " "))
 }
